@@ -4,13 +4,18 @@
 Case layout (see c14_hostile.c):  entry:1 cap:1 mode:1  then raw bytes
 (mode 0) or an array descriptor + trunc:2 + mode specific bytes.
 
-The raw-mode seeds carry small *valid* encodings of every format, written
-here from the documented layouts (tagged varint table of varintTagged.c,
-dictionary / RLE / bitmap layouts of the header comments, textbook Elias
-codes), so that the fuzzer starts from well-formed inputs of every entry
-point.  The structured seeds are short descriptors for modes 1-3, and the
-`w-*` files are hand-built inputs for the individual hostile-input defects of
-DESIGN section 6 #20-#23.
+The raw-mode seeds carry small well-formed-looking byte strings for every
+entry point, written here from the layouts documented at the time of writing
+(tagged varint table of varintTagged.c, dictionary / RLE / bitmap layouts of
+the header comments, textbook Elias codes), so that the fuzzer starts from
+inputs that get past the first header checks.  They are INPUTS ONLY: a raw-mode
+case carries no expectation about what decoding gives (mode 0 of c14_hostile.c
+passes no `expect`), so a seed that stops being a valid encoding after a
+format change merely becomes a less useful starting point - no oracle is keyed
+on "this seed is valid".  The structured seeds are short descriptors for modes
+1-3 (there the encoding is produced by the library's own encoder at run time),
+and the `w-*` files are hand-built inputs for the individual hostile-input
+defects of DESIGN section 6 #20-#23.
 """
 import os
 import struct
@@ -106,7 +111,7 @@ def main():
     files = {}
 
     files['empty'] = b''
-    # ---- raw valid encodings ------------------------------------------
+    # ---- raw, well-formed by the present layouts (inputs, not oracles) ---
     for i, v in enumerate([0, 240, 241, 2287, 2288, 67823, 67824, 1 << 32,
                            (1 << 64) - 1]):
         files['raw-tagged-%d' % i] = hdr(E_TAGGED, 0, M_RAW) + tagged(v)
